@@ -6,4 +6,5 @@ export CARGO_NET_OFFLINE=true
 python3 translator/extract.py
 (cd lean && lake build StatimeModel model-driver)
 (cd harness && cargo build --offline --bins && cargo build --offline --bins --release)
+(cd harness-linux && cargo build --offline --bins && cargo build --offline --bins --release)
 echo "setup ok"
